@@ -203,6 +203,12 @@ def h3_compensated(ctx, kind):
         an.run(1)
     rs = rows(an.get_results())
     row = rs[0]
+    # "followed by the same compensation": the compensating optimisation runs in EVERY trial, also when the sampled perturbation happens
+    # to equal the nominal value (the operand targets need not be the nominal operand values)
+    ran = len(log) >= 1 and len(log[0]['points']) >= 1
+    ctx.oblige('compensation_ran_in_the_trial', ran)
+    if not ran:
+        return
     ckey = [k for k in row if k.startswith('C0')][0]
     comp = ctx.val(row[ckey])                      # optimiser-space value of the compensator (scaled thickness)
     t2 = (comp + 1.0) * 10.0
